@@ -65,6 +65,8 @@ def install_blas():
         return orig_fcd(a, b)
 
     npc._find_calc_dtype = fcd
+    # numpy's own linalg.norm forgets the complex conjugate on object arrays: route it (no dtype widening)
+    npc.np = NumpyFacade(widen=False)
 
 
 def install_symbolic_charges():
